@@ -74,11 +74,13 @@ var (
 // ---------------------------------------------------------------- writes and the model
 
 type verifC39Write struct {
-	kind string // user | channel | addSubs | removeSubs
-	user metadb.User
-	ch   metadb.Channel
-	chID string
-	uids []string
+	kind  string // user | channel | addSubs | removeSubs | latest | latestBatch
+	hs    uint16 // hash slot the write is meant for (the envelope of a single-hash-slot command)
+	user  metadb.User
+	ch    metadb.Channel
+	chID  string
+	uids  []string
+	items []ChannelLatestBatchItem // latest: one row; latestBatch: rows in caller order, each with its own hash slot
 }
 
 func (w verifC39Write) encode() []byte {
@@ -91,8 +93,52 @@ func (w verifC39Write) encode() []byte {
 		return EncodeAddSubscribersCommand(w.chID, verifC39ChType, w.uids)
 	case "removeSubs":
 		return EncodeRemoveSubscribersCommand(w.chID, verifC39ChType, w.uids)
+	case "latest":
+		return EncodeUpsertChannelLatestCommand(w.items[0].Latest)
+	case "latestBatch":
+		return EncodeUpsertChannelLatestBatchCommand(w.items)
 	}
 	panic("verifC39: kind " + w.kind)
+}
+
+// envelope is the hash slot the proposal is routed with. pkg/cluster
+// UpsertChannelLatestBatch groups rows by physical slot only, keeps the caller's
+// row order and routes the batch with the hash slot of its first row.
+func (w verifC39Write) envelope() uint16 {
+	if w.kind == "latestBatch" {
+		return w.items[0].HashSlot
+	}
+	return w.hs
+}
+
+// touches: the write changes rows of hash slot hs.
+func (w verifC39Write) touches(hs uint16) bool {
+	if w.kind == "latestBatch" {
+		for _, it := range w.items {
+			if it.HashSlot == hs {
+				return true
+			}
+		}
+		return false
+	}
+	return w.hs == hs
+}
+
+// splitRows: a batch whose rows for hash slot hs are not contiguous (a row of
+// another hash slot sits between two of them).
+func (w verifC39Write) splitRows(hs uint16) bool {
+	state := 0 // 0 none seen, 1 inside the first run, 2 the run ended
+	for _, it := range w.items {
+		switch {
+		case it.HashSlot == hs && state == 2:
+			return true
+		case it.HashSlot == hs:
+			state = 1
+		case state == 1:
+			state = 2
+		}
+	}
+	return false
 }
 
 func (w verifC39Write) String() string {
@@ -101,42 +147,89 @@ func (w verifC39Write) String() string {
 		return fmt.Sprintf("user(%s=%s/%d)", w.user.UID, w.user.Token, w.user.DeviceFlag)
 	case "channel":
 		return fmt.Sprintf("channel(%s ban=%d large=%d)", w.ch.ChannelID, w.ch.Ban, w.ch.Large)
+	case "latest", "latestBatch":
+		var rows []string
+		for _, it := range w.items {
+			rows = append(rows, fmt.Sprintf("hs%d:%s@%d", it.HashSlot, it.Latest.ChannelID, it.Latest.LastMessageSeq))
+		}
+		return fmt.Sprintf("%s(%s)", w.kind, strings.Join(rows, " "))
 	}
 	return fmt.Sprintf("%s(%s %v)", w.kind, w.chID, w.uids)
 }
 
-func verifC39GenWrite(rt *rapid.T, serial int) verifC39Write {
-	switch rapid.IntRange(0, 3).Draw(rt, "writeKind") {
+func verifC39Latest(rt *rapid.T, serial int) metadb.ChannelLatest {
+	// LastMessageSeq grows with every generated row, so a channel-latest row is a
+	// plain overwrite in application order (no reliance on how stale rows resolve)
+	seq := uint64(serial)
+	return metadb.ChannelLatest{ChannelID: rapid.SampledFrom(verifC39Chans).Draw(rt, "latestCh"), ChannelType: verifC39ChType,
+		LastMessageID: seq * 10, LastMessageSeq: seq, LastAt: int64(1000 + serial),
+		FromUID: rapid.SampledFrom(verifC39UIDs).Draw(rt, "latestFrom"), ClientMsgNo: fmt.Sprintf("c-%d", serial),
+		Payload: []byte(fmt.Sprintf("p%d", serial)), UpdatedAt: int64(2000 + serial)}
+}
+
+// verifC39GenWrite draws one ordinary write for hash slot hs. other >= 0 names a
+// second hash slot owned by the same slot: a channel-latest batch may then carry
+// rows of both in any order (at least one row is for hs).
+func verifC39GenWrite(rt *rapid.T, serial *int, hs uint16, other int) verifC39Write {
+	*serial++
+	switch rapid.IntRange(0, 5).Draw(rt, "writeKind") {
 	case 0:
-		return verifC39Write{kind: "user", user: metadb.User{
-			UID: rapid.SampledFrom(verifC39UIDs).Draw(rt, "uid"), Token: fmt.Sprintf("tok-%d", serial),
-			DeviceFlag: int64(rapid.IntRange(0, 2).Draw(rt, "flag")), DeviceLevel: int64(serial % 2)}}
+		return verifC39Write{kind: "user", hs: hs, user: metadb.User{
+			UID: rapid.SampledFrom(verifC39UIDs).Draw(rt, "uid"), Token: fmt.Sprintf("tok-%d", *serial),
+			DeviceFlag: int64(rapid.IntRange(0, 2).Draw(rt, "flag")), DeviceLevel: int64(*serial % 2)}}
 	case 1:
-		return verifC39Write{kind: "channel", ch: metadb.Channel{
+		return verifC39Write{kind: "channel", hs: hs, ch: metadb.Channel{
 			ChannelID: rapid.SampledFrom(verifC39Chans).Draw(rt, "ch"), ChannelType: verifC39ChType,
-			Ban: int64(serial), Large: int64(rapid.IntRange(0, 1).Draw(rt, "large")), SendBan: int64(rapid.IntRange(0, 1).Draw(rt, "sendBan"))}}
+			Ban: int64(*serial), Large: int64(rapid.IntRange(0, 1).Draw(rt, "large")), SendBan: int64(rapid.IntRange(0, 1).Draw(rt, "sendBan"))}}
 	case 2:
-		return verifC39Write{kind: "addSubs", chID: rapid.SampledFrom(verifC39Chans).Draw(rt, "ch"),
+		return verifC39Write{kind: "addSubs", hs: hs, chID: rapid.SampledFrom(verifC39Chans).Draw(rt, "ch"),
 			uids: rapid.SliceOfNDistinct(rapid.SampledFrom(verifC39UIDs), 1, 3, rapid.ID[string]).Draw(rt, "uids")}
-	default:
-		return verifC39Write{kind: "removeSubs", chID: rapid.SampledFrom(verifC39Chans).Draw(rt, "ch"),
+	case 3:
+		return verifC39Write{kind: "removeSubs", hs: hs, chID: rapid.SampledFrom(verifC39Chans).Draw(rt, "ch"),
 			uids: rapid.SliceOfNDistinct(rapid.SampledFrom(verifC39UIDs), 1, 2, rapid.ID[string]).Draw(rt, "uids")}
+	case 4:
+		return verifC39Write{kind: "latest", hs: hs, items: []ChannelLatestBatchItem{{HashSlot: hs, Latest: verifC39Latest(rt, *serial)}}}
+	default:
+		n := rapid.IntRange(2, 5).Draw(rt, "latestRows")
+		items := make([]ChannelLatestBatchItem, 0, n)
+		mine := false
+		for i := 0; i < n; i++ {
+			if i > 0 {
+				*serial++
+			}
+			rowHS := hs
+			if other >= 0 && rapid.IntRange(0, 9).Draw(rt, "latestRowElsewhere") < 4 {
+				rowHS = uint16(other)
+			}
+			mine = mine || rowHS == hs
+			items = append(items, ChannelLatestBatchItem{HashSlot: rowHS, Latest: verifC39Latest(rt, *serial)})
+		}
+		if !mine {
+			items[rapid.IntRange(0, n-1).Draw(rt, "latestOwnRow")].HashSlot = hs
+		}
+		return verifC39Write{kind: "latestBatch", hs: hs, items: items}
 	}
 }
 
 // verifC39Model is the independent reference for the rows of one hash slot.
 type verifC39Model struct {
-	users map[string]metadb.User
-	chans map[string]metadb.Channel
-	subs  map[string]map[string]bool
+	hs     uint16
+	users  map[string]metadb.User
+	chans  map[string]metadb.Channel
+	subs   map[string]map[string]bool
+	latest map[string]metadb.ChannelLatest
 }
 
-func verifC39NewModel() *verifC39Model {
-	return &verifC39Model{users: map[string]metadb.User{}, chans: map[string]metadb.Channel{}, subs: map[string]map[string]bool{}}
+func verifC39NewModel(hs uint16) *verifC39Model {
+	return &verifC39Model{hs: hs, users: map[string]metadb.User{}, chans: map[string]metadb.Channel{}, subs: map[string]map[string]bool{},
+		latest: map[string]metadb.ChannelLatest{}}
 }
 
 func (m *verifC39Model) clone() *verifC39Model {
-	c := verifC39NewModel()
+	c := verifC39NewModel(m.hs)
+	for k, v := range m.latest {
+		c.latest[k] = v
+	}
 	for k, v := range m.users {
 		c.users[k] = v
 	}
@@ -152,8 +245,20 @@ func (m *verifC39Model) clone() *verifC39Model {
 	return c
 }
 
+// apply: the rows of the model's hash slot after the write (a multi-hash-slot
+// batch changes only its rows of that hash slot; other writes are no-ops for a
+// hash slot they are not meant for).
 func (m *verifC39Model) apply(w verifC39Write) {
+	if !w.touches(m.hs) {
+		return
+	}
 	switch w.kind {
+	case "latest", "latestBatch":
+		for _, it := range w.items {
+			if it.HashSlot == m.hs {
+				m.latest[it.Latest.ChannelID] = it.Latest
+			}
+		}
 	case "user":
 		m.users[w.user.UID] = w.user
 	case "channel":
@@ -207,6 +312,10 @@ func (m *verifC39Model) describe() string {
 		if len(subs) > 0 {
 			parts = append(parts, fmt.Sprintf("subs %s=%v", c, subs))
 		}
+		if v, ok := m.latest[c]; ok {
+			parts = append(parts, fmt.Sprintf("latest %s={id %d seq %d at %d from %s no %s payload %q updated %d}", c,
+				v.LastMessageID, v.LastMessageSeq, v.LastAt, v.FromUID, v.ClientMsgNo, v.Payload, v.UpdatedAt))
+		}
 	}
 	return strings.Join(parts, "; ")
 }
@@ -216,7 +325,7 @@ func (m *verifC39Model) empty() bool { return m.describe() == "" }
 // verifC39ReadHS reads the rows of one hash slot through the public getters.
 func verifC39ReadHS(rt *rapid.T, db *metadb.DB, hs uint16) *verifC39Model {
 	ctx := context.Background()
-	out := verifC39NewModel()
+	out := verifC39NewModel(hs)
 	shard := db.ForHashSlot(hs)
 	for _, u := range verifC39UIDs {
 		v, err := shard.GetUser(ctx, u)
@@ -244,6 +353,15 @@ func verifC39ReadHS(rt *rapid.T, db *metadb.DB, hs uint16) *verifC39Model {
 				out.subs[c] = map[string]bool{}
 			}
 			out.subs[c][u] = true
+		}
+		lt, err := shard.GetChannelLatest(ctx, c, verifC39ChType)
+		if err == nil {
+			if lt.ChannelID != c || lt.ChannelType != verifC39ChType {
+				rt.Fatalf("GetChannelLatest(%s) returned the row of %s/%d", c, lt.ChannelID, lt.ChannelType)
+			}
+			out.latest[c] = lt
+		} else if !errors.Is(err, metadb.ErrNotFound) {
+			rt.Fatalf("GetChannelLatest(%s): %v", c, err)
 		}
 	}
 	return out
